@@ -158,7 +158,7 @@ static std::map<const Value *, int> vid;       // instruction -> id (per functio
 static std::map<const BasicBlock *, int> bid;
 static const DataLayout *DLp;
 
-static std::string gepPath(Type *SrcTy, User::op_iterator ib, User::op_iterator ie, std::string (*enc)(Value *));
+static std::string gepPath(Type *SrcTy, User::op_iterator ib, User::op_iterator ie, std::string (*enc)(Value *), Value *Base = nullptr);
 static std::string encC(Constant *C, int depth);
 static std::string enc(Value *V) {
   if (auto *CI = dyn_cast<ConstantInt>(V)) {
@@ -190,7 +190,7 @@ static std::string encC(Constant *C, int depth) {
     std::string s = "[\"ce\"," + jstr(CE->getOpcodeName()) + ",[";
     for (unsigned i = 0; i < CE->getNumOperands(); i++) { if (i) s += ","; s += enc(CE->getOperand(i)); }
     s += "]";
-    if (auto *G = dyn_cast<GEPOperator>(CE)) s += "," + gepPath(G->getSourceElementType(), G->idx_begin(), G->idx_end(), enc);
+    if (auto *G = dyn_cast<GEPOperator>(CE)) s += "," + gepPath(G->getSourceElementType(), G->idx_begin(), G->idx_end(), enc, G->getPointerOperand());
     return s + "]";
   }
   if (isa<ConstantAggregateZero>(C)) return "[\"z\"," + jstr(tystr(C->getType())) + "]";
@@ -209,9 +209,37 @@ static std::string encC(Constant *C, int depth) {
 }
 // GEP path: list of steps.  ["p",idx,elemsize] first (pointer) index; ["f",struct,field,offset,ditype] struct member;
 // ["x",idx,elemsize] array/vector element.
-static std::string gepPath(Type *SrcTy, User::op_iterator ib, User::op_iterator ie, std::string (*encf)(Value *)) {
+static DICompositeType *diNext(DICompositeType *cur, StructType *ST, unsigned k) {
+  if (!cur) { auto f = diStructs.find(llStructBase(ST)); cur = f == diStructs.end() ? nullptr : f->second; }
+  if (!cur) return nullptr;
+  uint64_t off = DLp->getStructLayout(ST)->getElementOffset(k);
+  std::string hint; Type *E2 = ST->getElementType(k); while (auto *AT = dyn_cast<ArrayType>(E2)) E2 = AT->getElementType();
+  if (auto *EST = dyn_cast<StructType>(E2)) hint = llStructBase(EST);
+  auto *Mb = memberAt(cur, off, hint); if (!Mb) return nullptr;
+  DIType *B = stripQual(Mb->getBaseType());
+  while (auto *AC = dyn_cast_or_null<DICompositeType>(B)) { if (AC->getTag() == dwarf::DW_TAG_array_type) B = stripQual(AC->getBaseType()); else break; }
+  auto *next = dyn_cast_or_null<DICompositeType>(B);
+  if (next && next->isForwardDecl()) { auto f = diStructs.find(next->getName().str()); next = f == diStructs.end() ? nullptr : f->second; }
+  return next;
+}
+// DI composite describing the pointee of V when V is (a chain of) GEPs into nested anonymous aggregates
+static DICompositeType *diOfPointer(Value *V, int depth = 0) {
+  if (!V || depth > 8) return nullptr;
+  auto *G = dyn_cast<GEPOperator>(V); if (!G) return nullptr;
+  DICompositeType *cur = diOfPointer(G->getPointerOperand(), depth + 1);
+  Type *T = G->getSourceElementType(); bool first = true;
+  for (auto it = G->idx_begin(); it != G->idx_end(); ++it) {
+    if (first) { first = false; continue; }
+    if (auto *ST = dyn_cast<StructType>(T)) { auto *CI = dyn_cast<ConstantInt>(*it); if (!CI) return nullptr; unsigned k = CI->getZExtValue(); cur = diNext(cur, ST, k); T = ST->getElementType(k); }
+    else if (auto *AT = dyn_cast<ArrayType>(T)) T = AT->getElementType();
+    else if (auto *VT = dyn_cast<VectorType>(T)) T = VT->getElementType();
+    else return nullptr;
+  }
+  return cur;
+}
+static std::string gepPath(Type *SrcTy, User::op_iterator ib, User::op_iterator ie, std::string (*encf)(Value *), Value *Base) {
   std::string s = "[";
-  Type *T = SrcTy; bool first = true; DICompositeType *cur = nullptr; bool curValid = false;
+  Type *T = SrcTy; bool first = true; DICompositeType *cur = diOfPointer(Base); bool curValid = cur != nullptr;
   for (auto it = ib; it != ie; ++it) {
     Value *I = *it;
     if (!first) s += ",";
@@ -435,7 +463,7 @@ int main(int argc, char **argv) {
           O << ",\"a\":["; for (unsigned a = 0; a < CB->arg_size(); a++) { if (a) O << ","; O << enc(CB->getArgOperand(a)); } O << "]";
           O << ",\"used\":" << (CB->use_empty() ? "false" : "true");
         } else if (auto *G = dyn_cast<GetElementPtrInst>(&I)) {
-          O << ",\"a\":[" << enc(G->getPointerOperand()) << "],\"src\":" << jstr(tystr(G->getSourceElementType())) << ",\"path\":" << gepPath(G->getSourceElementType(), G->idx_begin(), G->idx_end(), enc);
+          O << ",\"a\":[" << enc(G->getPointerOperand()) << "],\"src\":" << jstr(tystr(G->getSourceElementType())) << ",\"path\":" << gepPath(G->getSourceElementType(), G->idx_begin(), G->idx_end(), enc, G->getPointerOperand());
           APInt off(64, 0); if (G->accumulateConstantOffset(*DLp, off)) O << ",\"coff\":" << off.getSExtValue();
         } else if (auto *P = dyn_cast<PHINode>(&I)) {
           O << ",\"a\":["; for (unsigned a = 0; a < P->getNumIncomingValues(); a++) { if (a) O << ","; O << enc(P->getIncomingValue(a)); } O << "],\"bb\":["; for (unsigned a = 0; a < P->getNumIncomingValues(); a++) { if (a) O << ","; O << bid[P->getIncomingBlock(a)]; } O << "]";
